@@ -7,7 +7,9 @@ directory edits reach the grid only through node.modify (DESIGN.md section 5,
 C13), plus the rule that every work-carrying callback hangs on the returned Deferred (node level C13.6,
 directory level C13.7; added after the mutation sweep), that the memo key is a function of the cap string the node
 is built from (C13.8) and that nothing inside a serialised region re-enters the serialiser (C13.9; both added after
-the seeded changes C13-C / C13-D)."""
+the seeded changes C13-C / C13-D), that methods split off an awaited function are awaited too (C13.10) and that the
+dirnode module reaches its backing node's shares only through the serialised entry points (C13.11; both added after
+the seeded changes C13-E / C13-F)."""
 from sa.h import *
 
 EXPLANATION = (
@@ -50,7 +52,20 @@ EXPLANATION = (
     "move_child_to, the I/M prefix of the memo key, blacklist wrapping) - value-level or other properties; edits "
     "that stop an operation from starting any grid work (a deleted callback lambda, `return None` in place of the "
     "work) are functional failures, not ordering failures, and are not reported unless they leave a work-carrying "
-    "named callback unattached.")
+    "named callback unattached. "
+    "Added after the seeded changes C13-E / C13-F: (10) the awaited set of (6)/(7) is closed under self.<method>: every "
+    "method of MutableFileNode / MutableFileVersion / DirectoryNode that an awaited function names on self (as callback, "
+    "errback, call or argument) and that starts grid work / a directory edit itself - known by what its body does, not by "
+    "its name - must satisfy the same two conditions, so an operation cut into methods is still one Deferred chain; a "
+    "call self.<such a method>(..) counts as work whose Deferred must be returned; (11) code of the dirnode module uses, "
+    "on its backing node (self._node, a modifier's self.node._node, or a local alias), only the serialised entry points "
+    "(download_best_version for reads, modify for edits) to reach the file's shares: the MutableFileNode methods that "
+    "reach a MutableFileVersion / Retrieve / Publish / ServermapUpdater construction without going through "
+    "_do_serialized (derived by intra-class reachability: get_best_readable_version, get_readable_version, "
+    "download_version, ...) are not used there; listed exception: the size probes get_current_size / "
+    "get_size_of_best_version. Still undecided: unserialised reads by other holders of a file node (web GET, SFTP and the "
+    "repairer use get_best_readable_version / download_version by design), self._node.check/check_and_repair (C14), work "
+    "split off into module-level functions or other classes, and a file node handed to a helper that reads it.")
 TECHNIQUE = ("static analysis: return-shape and who-may-call sweeps, Deferred registration model, CFG path rules, "
              "reaching definitions, normal-form value identity, intra-class reachability")
 
@@ -180,6 +195,26 @@ def _method_uses(idx, cg, tail, owner, foreign_prefix="allmydata"):
         elif fn.module.name.startswith(foreign_prefix):
             out.append((fn, node, kind))
     return out
+
+
+def _region_private_methods(idx, cg, ci, roots):
+    """`roots` plus the private methods of `ci` that are used (called or passed as a callback) only from code already in
+    the set: a step split off one of the roots runs exactly where the root runs."""
+    inside = set(roots)
+    cand = {nm for nm, m in ci.methods.items() if _is_func(m) and nm.startswith("_") and not nm.startswith("__")
+            and nm != "_do_serialized" and nm not in OPS.values()}
+    uses = {}
+    changed = True
+    while changed:
+        changed = False
+        for nm in sorted(cand - inside):
+            if nm not in uses:
+                uses[nm] = _method_uses(idx, cg, nm, ci)
+            us = uses[nm]
+            if us and all(_in_class(f, ci) and _top_method(f).name in inside for (f, _nd, _k) in us):
+                inside.add(nm)
+                changed = True
+    return inside
 
 
 def _top_method(fn):
@@ -324,10 +359,11 @@ def run(ctx: Context):
             if n_ok < 1:
                 raise AnchorVanished("%s is not given to _do_serialized by %s" % (impl, pubname))
         # writable versions are requested only from inside the serialised region
+        inside = _region_private_methods(idx, cg, mfn, MUTABLE_VERSION_CALLERS)
         for tail in ("get_best_mutable_version", "get_mutable_version"):
             for (f, nd, kind) in _method_uses(idx, cg, tail, mfn, foreign_prefix="\0none"):
                 top = _top_method(f)
-                r.require(top.name in MUTABLE_VERSION_CALLERS, f, f.loc(nd), "%s asks for a writable version (%s) outside the "
+                r.require(top.name in inside, f, f.loc(nd), "%s asks for a writable version (%s) outside the "
                           "serialised _impl methods" % (short(f), tail))
 
     # -- 3. the serialiser itself ------------------------------------------------
@@ -368,15 +404,16 @@ def run(ctx: Context):
         _dirnode_rule(r, idx)
 
     # -- 6. the serialised region covers all the work ---------------------------------
+    groups = _awaited_groups(idx)
     with ctx.rule("C13.6", "R2/E7", "functions running inside the serialised region return (on every path) the Deferred of "
                   "every piece of grid work they start, directly or through their callbacks", expected=20) as r:
-        _awaited_rule(r, idx)
+        _awaited_rule(r, idx, groups)
 
     # -- 7. directory operations cover the edits they start ---------------------------------
     with ctx.rule("C13.7", "R2/E7", "DirectoryNode operations (mutators and the operations built on them) return, on every "
                   "path, the Deferred of each directory edit they start; callbacks that start an edit hang on the returned "
                   "Deferred", expected=9) as r:
-        _dirnode_awaited_rule(r, idx)
+        _dirnode_awaited_rule(r, idx, groups)
 
     # -- 8. the memo key is a function of the cap string the node is built from ----------------
     with ctx.rule("C13.8", "E2/E6", "NodeMaker.create_from_cap: writecap/readcap enter the memo key only through the one cap "
@@ -391,6 +428,21 @@ def run(ctx: Context):
                   "node whose serialiser is held: such a call queues behind the operation that waits for it (deadlock)",
                   expected=18) as r:
         _reentrancy_rule(r, idx)
+
+    # -- 10. methods split off an awaited function are awaited too ----------------------------------
+    with ctx.rule("C13.10", "R2/E7", "every method that an awaited function (C13.6 / C13.7, transitively) names through "
+                  "self.<method> - as a callback, an errback or a call - and that starts grid work / a directory edit itself "
+                  "returns, on every path, the Deferred of that work, and hangs work-carrying callbacks on the Deferred it "
+                  "returns: an operation stays one Deferred chain however it is cut into methods", expected=6) as r:
+        _split_off_rule(r, idx, groups)
+
+    # -- 11. directory reads enter through the node's serialiser --------------------------------------
+    with ctx.rule("C13.11", "R4", "code of the dirnode module touches the shares of its backing mutable file only through the "
+                  "node's serialised entry points (download_best_version for reads, modify for edits); the unserialised "
+                  "version getters / downloaders of MutableFileNode (derived: methods reaching a MutableFileVersion / "
+                  "Retrieve / Publish / ServermapUpdater construction without _do_serialized) are not used on self._node "
+                  "(listed exception: get_current_size)", expected=10) as r:
+        _dirnode_read_rule(r, idx)
 
 
 # --------------------------------------------------------------- rule bodies
@@ -432,28 +484,194 @@ def _bodies(top):
     return bodies
 
 
-def _awaited_rule(r, idx):
+def _self_call_tail(c):
+    """X for a call ``self.X(..)``, else None."""
+    if isinstance(c, ast.Call) and isinstance(c.func, ast.Attribute) and isinstance(c.func.value, ast.Name) \
+            and c.func.value.id == "self":
+        return c.func.attr
+    return None
+
+
+def _work_methods(ci, is_work):
+    """Names of the methods defined by class `ci` that start work: their body (nested defs and lambdas included)
+    contains a work call, or calls self.<such a method> (fixpoint).  Derived from the code, so that a method that
+    was split off an operation is known by what it does and not by its name."""
+    meths = {nm: m for nm, m in ci.methods.items() if _is_func(m)}
+    out = {nm for nm, m in meths.items() if any(is_work(x) for x in ast.walk(m.node))}
+    calls = {nm: {_self_call_tail(x) for x in ast.walk(m.node)} - {None} for nm, m in meths.items()}
+    changed = True
+    while changed:
+        changed = False
+        for nm in meths:
+            if nm not in out and calls[nm] & out:
+                out.add(nm)
+                changed = True
+    return out
+
+
+def _with_self_methods(is_work, workmeths):
+    """is_work, extended with the calls ``self.X(..)`` of a method of the same object that starts work."""
+    def ext(c):
+        return is_work(c) or _self_call_tail(c) in workmeths
+    return ext
+
+
+def _awaited_group(r, idx, grp, pending):
+    """Check the queued (top, via) bodies of one group; methods of the same class that an awaited body names through
+    self.<method> (registered as a callback, called, or passed along) and that start work themselves run inside the
+    same operation: they are appended to `pending` so that their Deferred is checked like the listed ones."""
+    ci, make_is_work, label, what, seen = grp["ci"], grp["make"], grp["label"], grp["what"], grp["seen"]
+    queue, pending[:] = list(pending), []
+    for (top, via) in queue:
+        r.site(top, None, label if via is None else "%s: split off / run inside %s" % (label, via))
+        is_work = make_is_work(top)
+        for g in _bodies(top):
+            _awaited_body(r, idx, top, g, is_work, what)
+        workmeths = make_is_work(top, names_only=True)
+        for g in _bodies(top):
+            for x in func_own_nodes(g, into_lambda=True):
+                if isinstance(x, ast.Attribute) and isinstance(x.ctx, ast.Load) and isinstance(x.value, ast.Name) \
+                        and x.value.id == "self" and x.attr in workmeths and x.attr not in seen:
+                    m = ci.lookup(x.attr)
+                    if _is_func(m) and m.name != "_do_serialized":
+                        seen.add(x.attr)
+                        pending.append((m, short(top)))
+
+
+def _awaited_groups(idx):
+    """The three groups of awaited functions: [{ci, make, label, what, seen, pending}]."""
+    groups = []
     for q, names in AWAITED_IN.items():
         ci = idx.cls(q)
-        for nm in names:
-            top = idx.func(q + "." + nm)
-            r.site(top, None, "awaited")
-            for g in _bodies(top):
-                _awaited_body(r, idx, top, g, _grid_work, "the serialised operation")
+        workmeths = _work_methods(ci, _grid_work)
+        is_work = _with_self_methods(_grid_work, workmeths)
+
+        def make(top, names_only=False, _w=workmeths, _f=is_work):
+            return _w if names_only else _f
+        groups.append({"ci": ci, "make": make, "label": "awaited", "what": "the serialised operation",
+                       "seen": set(names), "pending": [(idx.func(q + "." + nm), None) for nm in names]})
+    dn = idx.cls(DN)
+    cache = {}
+
+    def make_dn(top, names_only=False):
+        if top.qual not in cache:
+            base = _dirnode_work(top)
+            wm = _work_methods(dn, base)
+            cache[top.qual] = (wm, _with_self_methods(base, wm))
+        return cache[top.qual][0 if names_only else 1]
+    names = DIRNODE_MUTATORS + tuple(DIRNODE_DELEGATORS)
+    groups.append({"ci": dn, "make": make_dn, "label": "directory operation", "what": "the directory operation",
+                   "seen": set(names), "pending": [(idx.func(DN + "." + nm), None) for nm in names]})
+    return groups
 
 
-def _dirnode_awaited_rule(r, idx):
+def _awaited_rule(r, idx, groups):
+    for grp in groups[:2]:
+        _awaited_group(r, idx, grp, grp["pending"])
+
+
+def _dirnode_awaited_rule(r, idx, groups):
     n_work = 0
     for nm in DIRNODE_MUTATORS + tuple(DIRNODE_DELEGATORS):
         top = idx.func(DN + "." + nm)
-        r.site(top, None, "directory operation")
         is_work = _dirnode_work(top)
         n_work += sum(1 for x in ast.walk(top.node) if is_work(x))
-        for g in _bodies(top):
-            _awaited_body(r, idx, top, g, is_work, "the directory operation")
     if n_work < len(DIRNODE_MUTATORS) + len(DIRNODE_DELEGATORS):
         raise AnchorVanished("DirectoryNode operations no longer start their edits through self._node.modify / "
                              "the mutators (found %d edit calls)" % n_work)
+    _awaited_group(r, idx, groups[2], groups[2]["pending"])
+
+
+def _split_off_rule(r, idx, groups):
+    """C13.10: the transitive remainder - methods reached from the awaited functions through self.<method>."""
+    for grp in groups:
+        while grp["pending"]:
+            _awaited_group(r, idx, grp, grp["pending"])
+
+
+# --------------------------------------------------------------- C13.11
+FILE_WORKERS = {"MutableFileVersion", "Retrieve", "Publish", "ServermapUpdater"}
+# unserialised file-node methods a directory may still use, with the reason
+_SIZE_PROBE = ("size probe (servermap survey only, hands back a number, no contents and no version object): not one of "
+               "the whole-file operations of the property")
+DIRNODE_UNSERIALISED_OK = {"get_current_size": _SIZE_PROBE, "get_size_of_best_version": _SIZE_PROBE}
+
+
+def _unserialised_node_methods(idx, mfn, entries):
+    """Methods of MutableFileNode that start work on the file's shares (construct a MutableFileVersion / Retrieve /
+    Publish / ServermapUpdater, or name - on self - a method that does) without entering through _do_serialized."""
+    meths = {nm: m for nm, m in mfn.methods.items() if _is_func(m)}
+    stop = set(entries) | {"_do_serialized"}
+    out = set()
+    for nm, m in meths.items():
+        if nm in stop:
+            continue
+        for x in ast.walk(m.node):
+            if isinstance(x, ast.Call) and isinstance(x.func, ast.Name) and x.func.id in FILE_WORKERS:
+                out.add(nm)
+                break
+    if not out:
+        raise AnchorVanished("no MutableFileNode method constructs %s" % sorted(FILE_WORKERS))
+    refs = {nm: {x.attr for (_g, x) in _self_refs(m)} for nm, m in meths.items() if nm not in stop}
+    changed = True
+    while changed:
+        changed = False
+        for nm, rs in refs.items():
+            if nm not in out and rs & out:
+                out.add(nm)
+                changed = True
+    return out
+
+
+def _denotes_backing_node(g, e, depth=3):
+    """Expression `e` in body `g` is the directory's backing file node: self._node, a modifier's self.node._node, or a
+    local all of whose definitions (here or in an enclosing body) are that."""
+    if attr_path(e) in ("self._node", "self.node._node"):
+        return True
+    if isinstance(e, ast.Name) and depth > 0:
+        p = g
+        while p is not None:
+            ds = all_defs(p).get(e.id)
+            if ds:
+                return all(d is not None and _denotes_backing_node(p, d, depth - 1) for d in ds)
+            p = p.parent
+    return False
+
+
+def _dirnode_read_rule(r, idx):
+    mfn = idx.cls(MFN)
+    entries = set(_serialised_entries(idx, mfn))
+    unser = _unserialised_node_methods(idx, mfn, entries)
+    private = {m for m in mfn.methods if m.startswith("_") and not m.startswith("__")}
+    covered_by_5 = DIRNODE_FORBIDDEN | private
+    mod = idx.module("allmydata.dirnode")
+    n_entry, n_read = 0, 0
+    for g in idx.funcs.values():
+        if g.module is not mod or g.name.startswith("<lambda"):
+            continue
+        for x in func_own_nodes(g, into_lambda=True):
+            if not (isinstance(x, ast.Attribute) and isinstance(x.ctx, ast.Load)):
+                continue
+            if not (x.attr in entries or x.attr in unser) or not _denotes_backing_node(g, x.value):
+                continue
+            if x.attr in entries:
+                n_entry += 1
+                n_read += x.attr == "download_best_version"
+                r.site(g, x, "serialised entry %s" % x.attr)
+            elif x.attr in DIRNODE_UNSERIALISED_OK:
+                r.site(g, x, "listed exception %s: %s" % (x.attr, DIRNODE_UNSERIALISED_OK[x.attr]))
+            elif x.attr not in covered_by_5:
+                r.violation(g, g.loc(x), "%s uses %s.%s, which works on the shares of the mutable file without entering the "
+                            "node's serialiser (unlike %s): a directory read requested after an edit starts at once "
+                            "instead of waiting its turn and can return the contents from before the edit" % (
+                                short(g), src(g, x.value), x.attr, "/".join(sorted(entries))))
+    r.count(len(unser))
+    r.site("unserialised MutableFileNode methods: %s" % ", ".join(sorted(unser)))
+    rd_fn = idx.func(DN + "._read")
+    r.site(rd_fn, None, "directory read")
+    if n_read < 1 and not r.violations:
+        raise AnchorVanished("no DirectoryNode code reads the directory through self._node.download_best_version any more, "
+                             "and no unserialised read was found in its place")
 
 
 def _stmt_of(parent, x):
@@ -949,7 +1167,19 @@ def _dirnode_rule(r, idx):
     for mname in DIRNODE_MUTATORS:
         fn = idx.func(DN + "." + mname)
         r.site(fn, None, "mutator")
-        bodies = [fn] + [g for g in fn.nested.values() if not g.name.startswith("<lambda")]
+        # the mutator, its nested defs, and the private DirectoryNode methods it runs through self.<method>
+        bodies, seen_m, stack = [], {mname}, [fn]
+        while stack:
+            top = stack.pop()
+            for g in _bodies(top):
+                bodies.append(g)
+                for x in func_own_nodes(g, into_lambda=True):
+                    if isinstance(x, ast.Attribute) and isinstance(x.ctx, ast.Load) and attr_path(x.value) == "self" \
+                            and x.attr.startswith("_") and x.attr not in seen_m:
+                        seen_m.add(x.attr)
+                        m = dn.lookup(x.attr)
+                        if _is_func(m):
+                            stack.append(m)
         mods = []
         for g in bodies:
             for c in calls_in_func(g, "modify"):
